@@ -16,6 +16,7 @@ import (
 	"strconv"
 	"strings"
 
+	rhp2 "go.sia.tech/core/rhp/v2"
 	"go.sia.tech/core/types"
 	rhp2host "go.sia.tech/hostd/v2/rhp/v2"
 	"go.sia.tech/hostd/v2/internal/verifh/vhlib"
@@ -115,9 +116,20 @@ func ucOf(id int) types.UnlockConditions {
 	}
 }
 
+// sectorRoot is the i-th sector root of the contracts used by the signing-site
+// and session cases; root ids 21..24 are the Merkle roots of the first 1..4 of them.
+func sectorRoot(i int) types.Hash256 { return types.Hash256{0xab, byte(i)} }
+
 func rootOf(id int) types.Hash256 {
 	if id == 0 {
 		return types.Hash256{}
+	}
+	if id > 20 && id <= 24 {
+		roots := make([]types.Hash256, id-20)
+		for i := range roots {
+			roots[i] = sectorRoot(i)
+		}
+		return rhp2.MetaRoot(roots)
 	}
 	return types.Hash256{byte(id), byte(id >> 8), 0x77}
 }
